@@ -187,7 +187,7 @@ fn judge(st: i64, all: &[&BlockRef], out: &Outcome) -> Option<(String, Value)> {
                 let cls = if items.is_empty() { "ok-empty" } else { "ok-blocks" };
                 return Some((cls.into(), json!({"got_items": items.len(), "want": "error"})));
             }
-            let want = &all[(st - 1) as usize..];
+            let want: &[&BlockRef] = all.get((st - 1) as usize..).unwrap_or(&[]);
             for (i, it) in items.iter().enumerate() {
                 match it {
                     Item::Err(e) => return Some(("item-err".into(), json!({"at": i, "err": short(e)}))),
